@@ -38,6 +38,12 @@ def _zip(members: list[tuple[str, bytes]], method=zipfile.ZIP_DEFLATED) -> bytes
 
 
 def _tar(members: list[tuple[str, bytes]], mode="w") -> bytes:
+    if mode == "w:gz":  # fixed gzip mtime: the bytes are a function of the members only
+        import gzip
+        out = io.BytesIO()
+        with gzip.GzipFile(fileobj=out, mode="wb", mtime=0) as g:
+            g.write(_tar(members, "w"))
+        return out.getvalue()
     bio = io.BytesIO()
     with tarfile.open(fileobj=bio, mode=mode, format=tarfile.PAX_FORMAT) as t:
         for name, data in members:
